@@ -4,12 +4,14 @@ package verifsim
 
 import (
 	"bytes"
+	"context"
 	"fmt"
 	"io"
 	"net/http"
 	"strings"
 	"sync"
 	"sync/atomic"
+	"time"
 
 	kjson "k8s.io/apimachinery/pkg/util/json"
 )
@@ -33,6 +35,10 @@ type HookCall struct {
 	RespHdr map[string]string
 	RespRaw []byte
 	Err     string
+	// Ctx is the context of the HTTP request (it carries the deadline the caller's http.Client set);
+	// Arrived is the wall-clock time the request reached the router (only compared with that deadline)
+	Ctx     context.Context `json:"-"`
+	Arrived time.Time       `json:"-"`
 }
 
 type HookResponse struct {
@@ -187,7 +193,7 @@ func (h *HookSite) serve(req *http.Request, path string) (*http.Response, error)
 		raw, _ = io.ReadAll(req.Body)
 		req.Body.Close()
 	}
-	call := &HookCall{Seq: atomic.AddInt64(h.clock, 1), Site: h.ID, Path: path, Header: req.Header.Clone(), ReqRaw: raw}
+	call := &HookCall{Seq: atomic.AddInt64(h.clock, 1), Site: h.ID, Path: path, Header: req.Header.Clone(), ReqRaw: raw, Ctx: req.Context(), Arrived: time.Now()}
 	if h.tagFn != nil {
 		call.Tag = h.tagFn()
 	}
